@@ -60,7 +60,7 @@ Theorem C12_new_bucket_ok : forall rps burst now,
   1 <= tb_burst (new_bucket rps burst now) /\ 0 < tb_rate (new_bucket rps burst now).
 Proof. exact new_bucket_ok. Qed.
 
-(** allowIngress: route limiter iff declared, else global, else admit; others untouched *)
+(** allowIngress: route limiter iff declared, else global, else size_verdict; others untouched *)
 Theorem C12_limiter_choice : forall ls r t,
   (forall b, find_route r (l_routes ls) = Some b ->
       snd (allow_ingress ls r t) = snd (allow_at b t) /\
@@ -87,16 +87,16 @@ Proof. exact global_projection. Qed.
 
 (** size limits *)
 Theorem C12_too_large_body : forall rate_ok body max_body hs max_headers,
-  rate_ok = true -> (max_body < body)%Z -> admit rate_ok body max_body hs max_headers = V413.
+  rate_ok = true -> (max_body < body)%Z -> size_verdict rate_ok body max_body hs max_headers = V413.
 Proof. exact too_large_body. Qed.
 
 Theorem C12_too_large_headers : forall rate_ok body max_body hs max_headers,
   rate_ok = true -> (body <= max_body)%Z -> (0 < max_headers)%Z -> (max_headers < header_kv_size hs)%Z ->
-  admit rate_ok body max_body hs max_headers = V413.
+  size_verdict rate_ok body max_body hs max_headers = V413.
 Proof. exact too_large_headers. Qed.
 
 Theorem C12_admit_iff : forall rate_ok body max_body hs max_headers, (0 < max_headers)%Z ->
-  (admit rate_ok body max_body hs max_headers = VAdmit <->
+  (size_verdict rate_ok body max_body hs max_headers = VAdmit <->
    rate_ok = true /\ (body <= max_body)%Z /\ (header_kv_size hs <= max_headers)%Z).
 Proof. exact admit_iff. Qed.
 
